@@ -157,3 +157,10 @@ def run(ctx):
     if c08_udeal:
         c08_udeal.run_udeal(ctx)
     ctx.trusted += ["harness/vsched.c", "TLC", "Linux eventfd/poll"]
+
+
+def replay(ctx, rp):
+    from checks import schedreplay
+    return schedreplay.replay_cmd(ctx, rp, "C08", {
+        "sched_uqueue": dict(src=["sched_uqueue.c", "vsched.c"], trace=("Uqueue_Trace", "Uqueue_Trace.cfg"), onepass=True),
+        "sched_udeal": dict(src=["sched_udeal.c", "vsched.c"], trace=("Udeal_Trace", "Udeal_Trace.cfg"), onepass=True)})
